@@ -10,7 +10,9 @@ Same model as C05 (`GoLevel/Model/Conc.lean`): `trOpen` (`OpenTransaction`, unde
 `tr.seq = db.seq`), `trPut` (`Transaction.put`: private memdb / private tables, sequence numbers
 `tr.seq+1…`), `trGet` (`Transaction.Get` = `db.get(tr.mem, tr.tables, key, tr.seq)`), `trInstall`
 (`Commit`: `s.commit(&tr.rec)` puts the private tables into the current version), `trPublish`
-(`db.setSeq(tr.seq)`), `trDiscard`.  A transaction's entries enter the ghost history only at `trPublish`.
+(`db.setSeq(tr.seq)`), `trDiscard` (`Discard`: `db.seq` is moved over the numbers the transaction used, so
+they are never handed out again — the fix of D16; `Cfg.discardReusesSeq` is the code before it).
+A transaction's entries enter the ghost history only at `trPublish`.
 
 Assumption made by the model and needed by the proofs (see `C05.trOverFrozen_breaks`): no frozen buffer is
 pending when the transaction opens.
@@ -96,16 +98,102 @@ theorem tr_commit_atomic {σ σ' : State} (h : Reachable Cfg.real c σ) (hs : St
     have := hinv.basic.snapsLe p hp; omega
 
 /-- **Discard leaves no trace.**  `trDiscard` is possible only before the tables were installed; it
-changes neither history nor buffers nor tables, none of which contains a private entry — and all later
-reads are views of the history (`C05.read_linearizable`), which only gains entries from later writes. -/
+changes neither history nor buffers nor tables, none of which contains a private entry; `db.seq` moves
+over the numbers the transaction used (a gap: no entry with those numbers exists) — and all later reads are
+views of the history (`C05.read_linearizable`), which only gains entries from later writes. -/
 theorem tr_discard_clean {σ σ' : State} (h : Reachable Cfg.real c σ) (hs : Step Cfg.real c σ .trDiscard σ') :
     ∃ t, σ.tr = some t ∧ t.installed = false ∧ σ'.tr = none ∧ σ'.hist = σ.hist ∧ σ'.tabs = σ.tabs
-      ∧ σ'.bufs = σ.bufs ∧ σ'.pub = σ.pub
+      ∧ σ'.bufs = σ.bufs ∧ σ'.pub = t.base + t.priv.length
+      ∧ (∀ e ∈ σ'.hist, e.seq ≤ t.base)
       ∧ (∀ e ∈ t.priv, e ∉ σ'.hist ∧ e ∉ σ'.tabs ∧ ∀ id, e ∉ getBuf σ' id) := by
   obtain ⟨t, g1, g2, rfl⟩ := doTrDiscard_some hs.1
   obtain ⟨hiso, _⟩ := tr_isolation h t g1
-  exact ⟨t, g1, g2, rfl, rfl, rfl, rfl, rfl,
+  obtain ⟨x4, _, hh, _, _⟩ := tr_reads h t g1
+  refine ⟨t, g1, g2, rfl, rfl, rfl, rfl, ?_, hh,
     fun e he => ⟨(hiso e he).1, (hiso e he).2.2 g2, (hiso e he).2.1⟩⟩
+  show max σ.pub (t.base + t.priv.length) = t.base + t.priv.length
+  omega
+
+/-- **The discarded numbers are never handed out again** (the fix of D16).  After `trDiscard` of a
+transaction with top number `base + n`, whatever happens later:
+every later `writeInsert` (and so every entry that later enters the history or any buffer) carries a number
+strictly above `base + n`, i.e. above every private entry of the discarded transaction.  Hence an iterator
+obtained from the transaction — one that pinned the private entries, any buffers and any table collection
+at a position `s ≤ base + n` — keeps returning exactly what it returned at the time of the discard. -/
+theorem tr_discard_no_reuse {σ σ' σ'' : State} (h : Reachable Cfg.real c σ)
+    (hs : Step Cfg.real c σ .trDiscard σ') (hs' : Steps Cfg.real c σ' σ'') :
+    ∃ t, σ.tr = some t ∧ σ'.pub = t.base + t.priv.length
+      ∧ (∀ p ∈ t.priv, p.seq ≤ t.base + t.priv.length)
+      ∧ (∀ es σ₃, Step Cfg.real c σ'' (.writeInsert es) σ₃ → ∀ e ∈ es, t.base + t.priv.length < e.seq)
+      ∧ (∀ e ∈ σ''.hist, e ∈ σ.hist ∨ t.base + t.priv.length < e.seq)
+      ∧ (∀ id, ∃ ext, getBuf σ'' id = getBuf σ id ++ ext ∧ ∀ e ∈ ext, t.base + t.priv.length < e.seq)
+      ∧ (∀ (mf : Nat × Option Nat) (v : List Entry) (k : Bytes) (s : Nat), s ≤ t.base + t.priv.length →
+          view c (t.priv ++ readSrc σ'' mf v) k s = view c (t.priv ++ readSrc σ mf v) k s) := by
+  obtain ⟨t, g1, _, _, _, _, _, hpub, _, _⟩ := tr_discard_clean h hs
+  have h' : Reachable Cfg.real c σ' := Steps.tail _ h hs
+  have hb' := (inv_reachable h').basic
+  have hple := steps_pub_le hb' hs'
+  obtain ⟨_, _, _, hpriv, _⟩ := tr_reads h t g1
+  have hbufs : σ'.bufs = σ.bufs := by
+    obtain ⟨t', g1', _, rfl⟩ := doTrDiscard_some hs.1
+    rfl
+  have hhist : σ'.hist = σ.hist := by
+    obtain ⟨t', g1', _, rfl⟩ := doTrDiscard_some hs.1
+    rfl
+  have hgrow : ∀ id, ∃ ext, getBuf σ'' id = getBuf σ id ++ ext ∧ ∀ e ∈ ext, t.base + t.priv.length < e.seq := by
+    intro id
+    obtain ⟨ext, h1, h2⟩ := steps_bufGrow hb' hs' id
+    refine ⟨ext, ?_, fun e he => by have := h2 e he; omega⟩
+    rw [h1]; simp [getBuf, hbufs]
+  refine ⟨t, g1, hpub, fun p hp => (hpriv p hp).2, ?_, ?_, hgrow, ?_⟩
+  · intro es σ₃ hw e he
+    obtain ⟨_, g2, _⟩ := doWriteInsert_some hw.1
+    have := ((consec_spec _ _ g2).1 e he).1
+    omega
+  · intro e he
+    obtain ⟨ext, h1, h2⟩ := steps_hist hb' hs'
+    rw [h1, hhist] at he
+    rcases List.mem_append.1 he with he | he
+    · exact Or.inl he
+    · right; have := h2 e he; omega
+  · intro mf v k s hle
+    apply view_eq_of_leF
+    have hopt : ∃ ext, optBuf σ'' mf.2 = optBuf σ mf.2 ++ ext ∧ ∀ e ∈ ext, t.base + t.priv.length < e.seq := by
+      cases mf.2 with
+      | none => exact ⟨[], rfl, by simp⟩
+      | some f => exact hgrow f
+    obtain ⟨e1, h1, h1'⟩ := hgrow mf.1
+    obtain ⟨e2, h2, h2'⟩ := hopt
+    simp only [readSrc, h1, h2, leF_append]
+    rw [leF_above (E := e1) (fun e he => by have := h1' e he; omega),
+        leF_above (E := e2) (fun e he => by have := h2' e he; omega)]
+    simp
+
+/-- **Negative result: the old `Discard`** (`db.seq` left alone).  The next write gets the numbers of the
+discarded transaction; it lands in the write buffer which an iterator of the transaction still holds, and
+at the iterator's position `base + n` the later write is visible: the iterator's answer for key `[3]`
+changes after the transaction is gone. -/
+def reuseTrace1 : List Action :=
+  [.writeInsert [ent 1 1 1 10], .publish, .rotate, .flushInstall, .flushDrop, .trOpen, .trPut (ent 1 2 0 0)]
+def reuseTrace2 : List Action := [.trDiscard, .writeInsert [ent 3 2 1 30], .publish]
+
+theorem discardReuse_breaks : ∃ (σ σ'' : State) (t : TrState),
+    Reachable { discardReusesSeq := true } bytewise σ ∧ σ.tr = some t
+    ∧ Steps { discardReusesSeq := true } bytewise σ σ''
+    ∧ (∃ e ∈ σ''.hist, e ∉ σ.hist ∧ e.seq ≤ t.base + t.priv.length)
+    ∧ view bytewise (t.priv ++ readSrc σ (σ.mem, σ.frozen) σ.tabs) [3] (t.base + t.priv.length) = none
+    ∧ view bytewise (t.priv ++ readSrc σ'' (σ.mem, σ.frozen) σ.tabs) [3] (t.base + t.priv.length) = some [30] := by
+  refine ⟨(run { discardReusesSeq := true } bytewise init reuseTrace1).getD init,
+    (run { discardReusesSeq := true } bytewise init (reuseTrace1 ++ reuseTrace2)).getD init,
+    ⟨1, [ent 1 2 0 0], false, []⟩,
+    steps_of_run reuseTrace1 init _ (by decide) (by decide), by decide,
+    steps_of_run reuseTrace2 _ _ (by decide) (by decide),
+    ⟨ent 3 2 1 30, by decide, by decide, by decide⟩, by decide, by decide⟩
+
+/-- the code as it is now refuses that write: after the discard the next number is `base + n + 1` -/
+example : run Cfg.real bytewise init (reuseTrace1 ++ reuseTrace2) = none
+    ∧ (run Cfg.real bytewise init (reuseTrace1 ++ [.trDiscard, .writeInsert [ent 3 3 1 30], .publish])).isSome = true := by
+  decide
 
 /-! ## non-vacuity -/
 
@@ -139,18 +227,20 @@ example : ∃ σ, run Cfg.real bytewise trState trTrace2 = some σ ∧ σ.pub = 
       [[([1], some [10]), ([2], some [20])], [([1], some [10]), ([2], some [20])], [([1], some [11]), ([2], none)]] :=
   ⟨(run Cfg.real bytewise trState trTrace2).getD init, by decide, by decide, by decide, by decide⟩
 
-/-- discard instead of commit: the next write reuses the sequence numbers, nobody ever saw the private ones -/
+/-- discard instead of commit: number 2 is skipped for good, the next write gets 3, nobody ever saw the
+private entry -/
 def trTrace3 : List Action :=
   [.writeInsert [ent 1 1 1 10], .publish, .rotate, .flushInstall, .flushDrop,
    .trOpen, .trPut (ent 1 2 0 0), .trGet [1], .trDiscard,
-   .writeInsert [ent 3 2 1 30], .publish, .rNew, .rSeq 0, .rMems 0, .rVer 0, .rLookup 0 [1], .rLookup 0 [3]]
+   .writeInsert [ent 3 3 1 30], .publish, .rNew, .rSeq 0, .rMems 0, .rVer 0, .rLookup 0 [1], .rLookup 0 [3]]
 
-example : ∃ σ, run Cfg.real bytewise init trTrace3 = some σ ∧ σ.pub = 2 ∧ σ.hist.length = 2
+example : ∃ σ, run Cfg.real bytewise init trTrace3 = some σ ∧ σ.pub = 3 ∧ σ.hist.length = 2
     ∧ σ.readers.map (·.results) = [[([1], some [10]), ([3], some [30])]] :=
   ⟨(run Cfg.real bytewise init trTrace3).getD init, by decide, by decide, by decide, by decide⟩
 
 def theorems : List String :=
   ["GoLevel.C11.tr_reads", "GoLevel.C11.tr_freezes_history", "GoLevel.C11.tr_isolation",
-   "GoLevel.C11.tr_commit_atomic", "GoLevel.C11.tr_discard_clean"]
+   "GoLevel.C11.tr_commit_atomic", "GoLevel.C11.tr_discard_clean", "GoLevel.C11.tr_discard_no_reuse",
+   "GoLevel.C11.discardReuse_breaks"]
 
 end GoLevel.C11
